@@ -101,7 +101,7 @@ pub fn gen_case2(prop: &str, tier: Tier, _seed: u64, idx: u64, r: &mut Rng) -> O
                 if r.chance(1, 6) {
                     // hostile sequence header / parameter sets handed to the builder
                     let n = r.range(0, 40) as usize;
-                    h.cfg.av1_seq = h.cfg.av1_seq.as_ref().map(|s| hostile_bytes(r, s)).or(Some(r.bytes(n)));
+                    h.cfg.av1_seq = if r.chance(1, 3) { Some(crate::model::av1::truncated_seq_unit(r)) } else { h.cfg.av1_seq.as_ref().map(|s| hostile_bytes(r, s)).or(Some(r.bytes(n))) };
                 }
                 h.cfg.lang = if r.chance(1, 3) { Some(crate::gen::hist::hostile_lang(r)) } else { None };
                 Case::Frag { h, side: Side { av1: side, vp9: None, op: 0 } }
@@ -110,7 +110,13 @@ pub fn gen_case2(prop: &str, tier: Tier, _seed: u64, idx: u64, r: &mut Rng) -> O
                 let codec = r.below(4) as u8;
                 let kind = *r.pick(&[FrameKind::KeyCfg, FrameKind::KeyNoCfg, FrameKind::Delta]);
                 let valid = video_frame(r, codec, kind, 24, true);
-                let data = if r.chance(1, 5) { valid.clone() } else { hostile_bytes(r, &valid) };
+                let data = if codec == AV1 && r.chance(1, 3) {
+                    crate::model::av1::truncated_seq_unit(r)
+                } else if r.chance(1, 5) {
+                    valid.clone()
+                } else {
+                    hostile_bytes(r, &valid)
+                };
                 match r.below(6) {
                     0 | 1 => Case::Free(FreeOp::CodecBytes { data, from: r.below(40) as usize }),
                     2 => Case::Free(FreeOp::ValidateVideoFrame { codec, data, key: r.chance(1, 2) }),
@@ -269,7 +275,7 @@ pub fn gen_case2(prop: &str, tier: Tier, _seed: u64, idx: u64, r: &mut Rng) -> O
                 Case::Frag { h, side: Side { av1: side, vp9: None, op: 0 } }
             } else if r.chance(1, 12) {
                 // very long recordings: the 64-bit (version 1) forms of mvhd / mdhd appear
-                let sc = *r.pick(&[1u64, 2, 3, 4, 10]);
+                let sc = *r.pick(&[1u64, 2, 3, 4, 10, 6, 6]);
                 return Some(c16_case(r, sc));
             } else {
                 let o = GenOpts { hostile_pct: 0, reorder_pct: 30, audio_pct: 65, meta_pct: 50, encode_pct: 0, consuming: false, max_video: 5, max_audio: 5, ..Default::default() };
@@ -510,6 +516,27 @@ fn c20_case(r: &mut Rng) -> CliCase {
     if which == 0 || which == 1 {
         // info on arbitrary / well-formed contents
         let mut c = CliCase { cmd: "info".into(), json: r.chance(1, 2), verbose: r.chance(1, 4), ..Default::default() };
+        if r.chance(1, 8) {
+            // a well-formed file of more than 1 MiB, in either layout, optionally followed by a
+            // top-level 'free' box: boxes that START far into the file must be listed too
+            let mut cfg = Cfg::basic(H264);
+            cfg.fast_start = Some(r.chance(1, 2));
+            let n = r.range(1_100_000, 2_600_000) as usize;
+            let frame = video_frame(r, H264, FrameKind::KeyCfg, n, false);
+            let h = History { cfg, ops: vec![Op::wv(0.0, frame, true), Op::Finish(FinishKind::InPlace)] };
+            let (_ex, sink) = run(&h, &ExecOpts::default());
+            let mut b = sink.bytes();
+            if b.len() > (1 << 20) {
+                if r.chance(1, 2) {
+                    b.extend_from_slice(&[0, 0, 0, 16]);
+                    b.extend_from_slice(b"free");
+                    b.extend_from_slice(&[0u8; 8]);
+                }
+                c.info = Some(FileSpec { exists: true, content: b });
+                c.intent = "valid".into();
+                return c;
+            }
+        }
         if r.chance(1, 2) {
             let o = GenOpts { hostile_pct: 0, consuming: false, max_video: 4, max_audio: 4, ..Default::default() };
             let h = gen_history(r, &o);
@@ -885,6 +912,22 @@ pub fn eval_case2(prop: &str, case: &Case, obs: &mut Obs) -> Vec<Violation> {
                     let code: String = [(i / 676) % 26, (i / 26) % 26, i % 26].iter().map(|&c| (b'a' + c as u8) as char).collect();
                     add(mon::c18::check_lang(&code, false, obs), &mut out);
                     add(mon::c18::check_lang(&code, true, obs), &mut out);
+                    // a malformed neighbour of the code (one position replaced by an upper-case
+                    // letter, digit, blank, '-', a multi-byte letter, or the code cut / extended):
+                    // nothing is claimed about the stored value, but both muxers must get through
+                    let mut chars: Vec<char> = code.chars().collect();
+                    let pos = (i % 3) as usize;
+                    let bad: String = match (i / 3) % 8 {
+                        0 => { chars[pos] = chars[pos].to_ascii_uppercase(); chars.iter().collect() }
+                        1 => { chars[pos] = '1'; chars.iter().collect() }
+                        2 => { chars[pos] = ' '; chars.iter().collect() }
+                        3 => { chars[pos] = '-'; chars.iter().collect() }
+                        4 => { chars[pos] = 'é'; chars.iter().collect() }
+                        5 => code[..pos].to_string(),
+                        6 => format!("{}{}", code, &code[..pos + 1]),
+                        _ => { chars[pos] = '\u{0}'; chars.iter().collect() }
+                    };
+                    add(mon::c18::check_malformed_lang(&bad, obs), &mut out);
                     obs.nontrivial(crate::util::fnv(code.as_bytes()));
                 }
                 obs.count("enumerated:langs", hi - lo);
